@@ -975,6 +975,30 @@ def _str_replace(ctx, args, ck):
     return out
 
 
+@model('str::replacen')
+def _str_replacen(ctx, args, ck):
+    s = as_str(ctx, args[0])
+    to = as_str(ctx, args[2])
+    n = to_usize(ctx, args[3])
+    parts = split_str(ctx, s, args[1])
+    out = StringObj()
+    for k, p in enumerate(parts):
+        if k:
+            if k <= n:
+                string_push_str(ctx, out, to)
+            else:
+                # occurrences beyond the first n stay: put the separator back
+                pat = ctx.m.peel(args[1])
+                if isinstance(pat, Int):
+                    out.buf.chars.append(pat)
+                    out.buf.widths.append(ctx.char_width(pat))
+                    out.buf.dirty()
+                else:
+                    string_push_str(ctx, out, as_str(ctx, pat))
+        string_push_str(ctx, out, p)
+    return out
+
+
 @model('str::repeat')
 def _str_repeat(ctx, args, ck):
     s = as_str(ctx, args[0])
@@ -991,9 +1015,27 @@ def _str_to_case(ctx, args, ck):
     out = StringObj()
     lower = 'lower' in ck.name
     for c in s.chars():
+        if not isinstance(c.v, int) and not ctx.must(z3.ULT(c.v, 0x80)):
+            # symbolic char over a small alphabet (harness assumption): if-then-else over the feasible code points,
+            # Unicode simple case mapping for each (only mappings that keep one char of the same UTF-8 width)
+            vals = feasible_values(ctx, c, limit=12)
+            if not vals:
+                raise Unsupported('case mapping of a symbolic char outside a small alphabet')
+            w = ctx.char_width(c)
+            term = None
+            for v in vals:
+                ch = chr(v)
+                if 'ascii' in ck.name:
+                    r = (ch.lower() if lower else ch.upper()) if ch.isascii() else ch
+                else:
+                    r = ch.lower() if lower else ch.upper()
+                if len(r) != 1 or len(r.encode()) != w or ch in 'Σİ':
+                    raise Unsupported('case mapping of %r changes length' % ch)
+                term = z3.BitVecVal(ord(r), 32) if term is None else z3.If(c.v == v, z3.BitVecVal(ord(r), 32), term)
+            out.buf.chars.append(Int(z3.simplify(term), 'char', w))
+            out.buf.widths.append(w)
+            continue
         if not isinstance(c.v, int):
-            if not ctx.must(z3.ULT(c.v, 0x80)):
-                raise Unsupported('case mapping of non-ASCII symbolic char')
             if lower:
                 isup = z3.And(z3.UGE(c.v, 0x41), z3.ULE(c.v, 0x5A))
                 nc = Int(z3.If(isup, c.v + 32, c.v), 'char', 1)
